@@ -1,6 +1,6 @@
 from ._muxprops import make, COMMON_RULE
 
-SPEC = make("C02", "Properties.C02", ['C02_read_is_prefix', 'C02_data_equation', 'C02_reachable_inv', 'C02_clean_close_equal', 'C02_no_crosstalk_slots', 'C02_read_projects'],
+SPEC = make("C02", "Properties.C02", ['C02_read_is_prefix', 'C02_data_equation', 'C02_reachable_inv', 'C02_clean_close_equal', 'C02_no_crosstalk_slots', 'C02_read_projects', 'C02_pair_simulated_by_flows', 'C02_pair_step_simulated'],
             [("pair", "single", 0.4), ("pair", "single-permits", 0.2), ("pair", "", 0.2), ("pair", "collide-drop-permits", 0.1), ("pair", "collide-reuse", 0.2)],
             COMMON_RULE + "For this property additionally: single-flow scripts (one established stream, then only reads / "
             "plain, vectored and empty writes / shutdowns and message-by-message deliveries, 40-120 labels) whose read and "
